@@ -1767,7 +1767,12 @@ sexp sexp_quotient (sexp ctx, sexp a, sexp b) {
     }
     break;
   case SEXP_NUM_FIX_BIG:
-    r = SEXP_ZERO;
+    /* the most negative fixnum has the magnitude of the smallest bignum */
+    if (a == sexp_make_fixnum(SEXP_MIN_FIXNUM) && sexp_bignum_hi(b) == 1
+        && sexp_bignum_data(b)[0] == (sexp_uint_t)SEXP_MAX_FIXNUM+1)
+      r = sexp_make_fixnum(-sexp_bignum_sign(b));
+    else
+      r = SEXP_ZERO;
     break;
   case SEXP_NUM_BIG_FIX:
     b = tmp = sexp_fixnum_to_bignum(ctx, b);
@@ -1846,7 +1851,11 @@ sexp sexp_remainder (sexp ctx, sexp a, sexp b) {
     r = sexp_fx_rem(a, b);
     break;
   case SEXP_NUM_FIX_BIG:
-    r = a;
+    if (a == sexp_make_fixnum(SEXP_MIN_FIXNUM) && sexp_bignum_hi(b) == 1
+        && sexp_bignum_data(b)[0] == (sexp_uint_t)SEXP_MAX_FIXNUM+1)
+      r = SEXP_ZERO;
+    else
+      r = a;
     break;
   case SEXP_NUM_BIG_FIX:
     r = sexp_bignum_fxrem(ctx, a, sexp_unbox_fixnum(b));
